@@ -19,6 +19,9 @@ RULE = ('cases: (a) every sampled cell (real and imaginary part) of transform(x)
 TRUSTED = [
     'Coq 8.16.1 kernel + vm_compute; Coq Interval tactic (proofs checked by the kernel at Qed)',
     'hand-written model coq/lib/Dft.v + coq/model/M_stockwell.v; tie = interval goals on the R model (harness/ivl_c06.py) + correspondence of this run (model/K_C15.v)',
+    'translator/py2coq_c15.py (re-run on every check) + the C15_*_is_source theorems for the statements of generate_gaussian, transform, transform_w_scipy_fft, '
+    'itransform, get_max_tifq_vals_freq and get_max_stockwell_freq around the FFT / exp / abs kernels; trusted there: the readings of the NumPy / SciPy array '
+    'statements in coq/lib/NpMat.v and coq/lib/NpArr.v (toeplitz, transpose, outer, slices, set_slice, sum_axis1, argmax_axis0) and the translator itself',
     'exact arithmetic (rounding not modelled): NumPy / SciPy FFTs are measured against the defining sums within 1e-12*sum|x|, not proved',
     'cells of records longer than 13 samples are tied only through the relational checks (marginal, inverse, linearity, agreement) on implementation outputs',
     'the dominant-frequency clause for on-grid sinusoids is evaluated as a test on the implementation, not proved',
@@ -180,9 +183,23 @@ def fragile_columns(re, im):
     return bad
 
 
+def regen_c15():
+    """re-translate generate_gaussian / transform / transform_w_scipy_fft / itransform / get_max_tifq_vals_freq /
+    get_max_stockwell_freq (eqsig/stockwell.py) into coq/gen/Gen_c15.v (fail closed): the `C15_*_is_source` theorems of
+    Prop_C15 are then re-proved against the code that is in the repo now"""
+    import os, sys
+    try:
+        sys.path.insert(0, os.path.join(core.VERIF, 'translator'))
+        import py2coq_c15
+        py2coq_c15.regenerate(repo=core.REPO)
+    except Exception as e:
+        return 'py2coq_c15: %s: %s' % (type(e).__name__, e)
+    return None
+
+
 def run(rep, rng, tier):
     t0 = time.time()
-    rep.prove('Prop_C15')
+    rep.prove('Prop_C15', gen_failed=regen_c15())
     t1 = time.time()
     quick = tier == 'quick'
     cases, goals, goal_owner = [], [], []
